@@ -154,6 +154,12 @@ def nextInsideToken : Nat → LX → Token × LX
   | fuel+1, l =>
     let l := l.skipWhitespace
     let c := l.ch
+    -- a token belongs to the line it starts on (the look-ahead may consume a newline)
+    let line := l.line
+    if c == 35 then  -- '#': line comment, then the next token (returned as is)
+      nextInsideToken fuel (skipLineComment (l.input.size + 2) l)
+    else
+    let r : Token × LX :=
     if c == 61 then       -- '='
       if l.peekChar == 61 then two l .EQ "==" else finish (l.newToken .ASSIGN) l
     else if c == 46 then  -- '.'
@@ -199,8 +205,6 @@ def nextInsideToken : Nat → LX → Token × LX
     else if c == 96 then  -- '`'
       let (s, l) := l.readBString
       finish { type := .B_STRING, lit := s, line := 0 } l
-    else if c == 35 then  -- '#': line comment, then the next token (returned as is)
-      nextInsideToken fuel (skipLineComment (l.input.size + 2) l)
     else if c == 91 then finish (l.newToken .LBRACKET) l
     else if c == 93 then finish (l.newToken .RBRACKET) l
     else if c == 0 then finish { type := .EOF, lit := [], line := 0 } l
@@ -211,6 +215,7 @@ def nextInsideToken : Nat → LX → Token × LX
       let (lit, l) := l.readNumber
       (numberToken lit l.line, l)
     else finish (l.newToken .ILLEGAL) l
+    ({ r.1 with line := line }, r.2)
 
 def nextToken (l : LX) : Token × LX :=
   if l.inside then nextInsideToken (l.input.size + 2) l
